@@ -5,6 +5,7 @@ package c10
 
 import (
 	"fmt"
+	"os"
 	"reflect"
 	"sort"
 	"strings"
@@ -417,8 +418,12 @@ func runSelfDeadlock(c *evid.Ctx, dc dlCase) {
 			res = coll.Apply(obj, op)
 			// whatever the operation did - returned or panicked (Apply recovers, as the library's
 			// comments ask callers to) - the structure's lock must be free again
-			if hasMethod(dc.desc, "Size") {
-				coll.Apply(obj, coll.MkOp("Size"))
+			// (Clear takes the lock in every type; Size does not in the hash maps)
+			for _, follow := range []string{"Clear", "Size"} {
+				if hasMethod(dc.desc, follow) {
+					coll.Apply(obj, coll.MkOp(follow))
+					break
+				}
 			}
 		})
 		return func() string {
@@ -437,6 +442,12 @@ func runSelfDeadlock(c *evid.Ctx, dc dlCase) {
 		}
 	}
 	x, verdict := dfs.RunOne(sc, nil, 200000, false)
+	if os.Getenv("VERIF_DEBUG") != "" && strings.Contains(dc.op.Label, "slice value") {
+		if f, err := os.OpenFile(os.Getenv("VERIF_DEBUG"), os.O_APPEND|os.O_CREATE|os.O_WRONLY, 0644); err == nil {
+			fmt.Fprintf(f, "C10 dl %s.%s prefill=%d res=%q verdict=%q deadlock=%v blocked=%v\n", dc.desc.Name, dc.op.Label, len(dc.prefill), res, verdict, x.Deadlock, x.Blocked)
+			f.Close()
+		}
+	}
 	c.Count("selfdeadlock_runs", 1)
 	c.Count("transitions", int64(x.Steps))
 	if verdict == "self-deadlock" {
@@ -707,7 +718,11 @@ func Run(c *evid.Ctx) {
 			deadline = time.Now().Add(30 * time.Minute)
 		}
 		larger, left := false, 0
+		only := os.Getenv("VERIF_C10_KINDS") // debugging aid: run only these task kinds
 		run := func(i int, t task) bool {
+			if only != "" && !strings.Contains(only, t.kind) {
+				return true
+			}
 			if larger && !deadline.IsZero() {
 				if time.Now().After(deadline) {
 					left++
